@@ -3,7 +3,7 @@ CONSTANT DeadlineOnProcessClock = FALSE
 CONSTANT AgeLimit = 2
 CONSTANT MaxAge = 0
 CONSTANT ModelReused = TRUE
-CONSTANT TreeKinds = 14
+CONSTANT TreeKinds = 16
 CONSTANT MaxLen = 2
 SPECIFICATION Spec
 INVARIANT TypeOK
